@@ -45,25 +45,38 @@ theorem timeout_generated_eq_model (s : KState τ σ) (self : EvId) (d : τ) (v 
   timeout_init s self d v
 
 /-- **every place where the kernel schedules an occurrence puts it in the class, and at the delay, that the model gives it**
-(read from the arguments of the `schedule` call at that place, omitted ones being the defaults of `Environment.schedule`):
-`Event.succeed`, `Event.fail` and the two handlers of `Process._resume` that end a process schedule an *ordinary* occurrence now
-(`NORMAL`, delay 0: `KState.trigger`, used by the model's `succeed` / `fail` calls and by `finishProc`); `Initialize.__init__`
-(process start: the model's `spawn` call), `Interruption.__init__` (`mkInterrupt`) and the stop event of `run(until=<number>)`
-(`runUntilTime`) are *urgent*; and urgent sorts before ordinary.  What else those methods do is the business of C02 / C03 /
-C04 (`Props/KernelGen02.lean` … `KernelGen04.lean`, where the names `URGENT` / `NORMAL` stand for the model's constants). -/
+(read from the arguments of the `schedule` call at that place, omitted ones being the defaults of `Environment.schedule`; a site is
+`none` when its method no longer contains the call - then the owner of the method refuses it - and `some` on the pinned tree, see
+the example below): `Event.succeed`, `Event.fail` and the two handlers of `Process._resume` that end a process schedule an
+*ordinary* occurrence now (`NORMAL`, delay 0: `KState.trigger`, used by the model's `succeed` / `fail` calls and by `finishProc`);
+`Initialize.__init__` (process start: the model's `spawn` call), `Interruption.__init__` (`mkInterrupt`) and the stop event of
+`run(until=<number>)` (`runUntilTime`) are *urgent*; and urgent sorts before ordinary.  What else those methods do is the business
+of C02 / C03 / C04 (`Props/KernelGen02.lean` … `KernelGen04.lean`, where the names `URGENT` / `NORMAL` stand for the model's
+constants). -/
 theorem site_priorities_generated_eq_model (s : KState τ σ) (e : EvId) (o : Outcome) :
-    s.trigger e o = (s.setOut e o).schedule e (Gen.Site.succeed (α := τ)).1 (Gen.Site.succeed (α := τ)).2 ∧
-    Gen.Site.fail (α := τ) = (NORMAL, Num.zero) ∧
-    Gen.Site.process_returned (α := τ) = (NORMAL, Num.zero) ∧ Gen.Site.process_raised (α := τ) = (NORMAL, Num.zero) ∧
-    Gen.Site.initialize (α := τ) = (URGENT, Num.zero) ∧ Gen.Site.interruption (α := τ) = (URGENT, Num.zero) ∧
-    Gen.Site.run_sentinel_priority = URGENT ∧ URGENT < NORMAL :=
-  ⟨rfl, rfl, rfl, rfl, rfl, rfl, rfl, by decide⟩
+    (∀ pd, Gen.Site.succeed (α := τ) = some pd → s.trigger e o = (s.setOut e o).schedule e pd.1 pd.2) ∧
+    (∀ pd, Gen.Site.fail (α := τ) = some pd → pd = (NORMAL, Num.zero)) ∧
+    (∀ pd, Gen.Site.process_returned (α := τ) = some pd → pd = (NORMAL, Num.zero)) ∧
+    (∀ pd, Gen.Site.process_raised (α := τ) = some pd → pd = (NORMAL, Num.zero)) ∧
+    (∀ pd, Gen.Site.initialize (α := τ) = some pd → pd = (URGENT, Num.zero)) ∧
+    (∀ pd, Gen.Site.interruption (α := τ) = some pd → pd = (URGENT, Num.zero)) ∧
+    (∀ p, Gen.Site.run_sentinel_priority = some p → p = URGENT) ∧ URGENT < NORMAL := by
+  refine ⟨?_, ?_, ?_, ?_, ?_, ?_, ?_, by decide⟩
+  all_goals
+    intro pd h
+    first
+      | (cases h; rfl)
+      | (simp only [Gen.Site.succeed, Gen.Site.fail, Gen.Site.process_returned, Gen.Site.process_raised, Gen.Site.initialize,
+          Gen.Site.interruption, Gen.Site.run_sentinel_priority, reduceCtorEq] at h)
 
 /-! ## non-vacuity: the generated definitions on concrete objects -/
 
-/-- a negative delay is refused, a zero delay is not; a timeout is an ordinary (`NORMAL`) occurrence -/
+/-- a negative delay is refused, a zero delay is not; on the pinned tree every site is seen, with these (priority, delay) -/
 example : (Gen.Timeout.init (evObj (τ := Rat)) (-1)).raised = 2 ∧ (Gen.Timeout.init (evObj (τ := Rat)) 0).raised = 0 ∧
-    (Gen.Site.interruption (α := Rat)).1 < (Gen.Site.succeed (α := Rat)).1 := by
+    Gen.Site.succeed (α := Rat) = some (1, 0) ∧ Gen.Site.fail (α := Rat) = some (1, 0) ∧
+    Gen.Site.process_returned (α := Rat) = some (1, 0) ∧ Gen.Site.process_raised (α := Rat) = some (1, 0) ∧
+    Gen.Site.initialize (α := Rat) = some (0, 0) ∧ Gen.Site.interruption (α := Rat) = some (0, 0) ∧
+    Gen.Site.run_sentinel_priority = some 0 := by
   decide
 
 end KernelGen
